@@ -182,7 +182,9 @@ CLAIMED["C07"] = dict(
          "tokenFromModel (both) is verified to read every field of a model back (identifiers through did.Parse, command through command.Parse, seconds through OptionalTimestamp: instant = seconds x 10^9) and to accept every model made of "
          "parseable identifiers, a valid command, a decodable policy, a nonce of >= 12 bytes and time bounds in the safe range; the constructors (New, Root, validate) are verified to accept only tokens whose command the decoder accepts and whose "
          "time bounds lie in that range. Together with the lemma text_roundtrip of C16 (printing then parsing a DID gives it back, for every generatable key code), command.Parse(s) = s for valid s (C15) and the seconds contract (C04), "
-         "substituting the model of toIPLD into tokenFromModel gives back every field of the original token at whole-second resolution; the generic decoders return a token only through the typed ones (C06).",
+         "substituting the model of toIPLD into tokenFromModel gives back every field of the original token at whole-second resolution; the generic decoders return a token only through the typed ones (C06). "
+         "No spurious rejection: envelope.Inspect and the typed FromIPLD (delegation, invocation) are verified complete — an envelope whose every stage is acceptable (shape, tag, schema-typed payload, parseable issuer with an extractable key, "
+         "announced header of that key's type, encodable signed part, verifying signature) and whose model is acceptable is decoded — over named verdict functions of the dependencies.",
     note="Assumed (trusted): bindnode wrap/unwrap and the DAG-CBOR / DAG-JSON codecs round-trip the model (envelope.ToIPLD is used through a trusted contract naming the model it was given); signing and verification agree for every key algorithm "
          "(the codec x key-algorithm matrix beyond go-ucan's own code is outside the verified text). The substitution step itself (composing the two verified contracts) is an argument on paper, not a machine-checked lemma: "
          "the model contains pointers, and lemmas are heap-free. Deep equality of policy leaf values and of metadata / argument values after the round trip rests on the codec assumption.",
